@@ -25,6 +25,7 @@
 -/
 import MbVerif.Proofs.SimMatch
 import MbVerif.Proofs.SimRaw
+import MbVerif.Proofs.SimMonitorAccept
 import MbVerif.Spec.C15
 
 namespace Mb.C15
@@ -259,5 +260,153 @@ theorem C15_causality_matching_raw (budget : Nat) (mc ms : List Machine) (raw : 
 example : (match exState with
     | some st => decide ((loop exOracle exArgs.unfiltered 100 st 0 0).stop = .noNormal)
     | none => false) = true := by decide
+
+/-! ### the monitor accepts the model's own observation -/
+
+/-- the guard of `C15_monitor_accepts_model_partial`: a run that ended because `pick_next`
+    returned `None` left no normal packet waiting in the queues of its last state (`pending` =
+    the side's base NormalSent events plus its queued normal TunnelSent events) -/
+def DrainedIfEmpty (o : SimOut σ) : Prop :=
+  o.stop = .queueEmpty → ∀ stf, o.final = some stf → ∀ cl, stf.sq.pending cl = 0
+
+/-- the monitor returns no failure on an observed trace that is ordered and — when unfiltered —
+    satisfies the causality and the conservation predicate with the monitor's own "complete" flag -/
+theorem monitor_none_of {c : CaseIn} {r : ObsRun} {tr : List SimEvent} (hres : r.res = .ok tr)
+    (h1 : sortedByTime tr = true)
+    (h2 : (r.run.effArgs c.delay).onlyClientEvents = false → (r.run.effArgs c.delay).onlyNetworkActivity = false →
+      causality c.delay tr = true ∧
+      conservation (normalLines c.trace)
+        (((r.run.effArgs c.delay).maxTraceLength == 0 || decide (tr.length < (r.run.effArgs c.delay).maxTraceLength))
+          && ((r.run.effArgs c.delay).maxSimIterations == 0 || decide (tr.length < (r.run.effArgs c.delay).maxSimIterations)))
+        tr = true) :
+    C15.monitor c r = none := by
+  unfold C15.monitor
+  rw [hres]
+  simp only [h1, Bool.not_true, Bool.false_eq_true, if_false]
+  cases hoc : (r.run.effArgs c.delay).onlyClientEvents with
+  | true => simp
+  | false =>
+    cases hon : (r.run.effArgs c.delay).onlyNetworkActivity with
+    | true => simp
+    | false =>
+      obtain ⟨hc, hk⟩ := h2 hoc hon
+      simp only [Bool.or_self, Bool.false_eq_true, if_false, hc, Bool.not_true, hk]
+
+/-- **The C15 monitor accepts the model's own observation (partial).**  For every case (machine
+    lists on both sides, raw input trace with all direction tokens, network delay), every run
+    (`sim` or `sim_advanced`, any arguments, filters, caps, fractions, packets-per-second limit),
+    every oracle and every loop budget: if the model run that ended because `pick_next` returned
+    `None` left no normal packet waiting (`DrainedIfEmpty`; `C15_monitor_rejects_unreachable_packet`
+    shows the guard is needed, `C15_monitor_accepts_model` discharges it from bounds on the inputs),
+    the monitor `C15.monitor`, evaluated on the model's observation of the run, reports no failure.
+    A faulting run is observed as a panic, which this monitor ignores; filtered runs are only
+    checked for their order. -/
+theorem C15_monitor_accepts_model_partial (budget : Nat) (c : CaseIn) (r : RunIn) (orc : σ)
+    (hdr : DrainedIfEmpty (modelOut ρ budget c r orc)) :
+    C15.monitor c (modelObs ρ budget c r orc) = none := by
+  cases hp : (modelOut ρ budget c r orc).stop.isPanic with
+  | true =>
+    obtain ⟨cls, hc⟩ := res_panic (t0 := obsT0 c) hp
+    unfold C15.monitor
+    rw [modelObs_res, hc]
+  | false =>
+    have hres := res_ok (t0 := obsT0 c) hp
+    have hok := isPanic_false_no_fault hp
+    apply monitor_none_of (tr := (modelOut ρ budget c r orc).trace.map (SimEvent.shift (obsT0 c)))
+    · rw [modelObs_res, hres]
+    · exact sortedByTime_shift _ _ (C15_trace_sorted ρ budget c.mc c.ms _ _ orc)
+    · intro hoc hon
+      rw [modelObs_run] at hoc hon ⊢
+      constructor
+      · apply causality_shift
+        intro cl pd T
+        have := C15_causality_trace ρ budget c.mc c.ms (normalLines c.trace) c.delay (r.effArgs c.delay) orc
+          (effArgs_delay r c.delay) hoc hon (by rw [← parseTraceRaw_eq]; exact hok) cl pd T
+        rw [← parseTraceRaw_eq] at this
+        exact this
+      · -- conservation with the monitor's "complete" flag
+        have htr : (modelOut ρ budget c r orc).trace = (modelOut ρ budget c r orc).stream.map (·.ev) := by
+          have := simAdvanced_trace_stream ρ budget c.mc c.ms (parseTraceRaw c.trace c.delay) (r.effArgs c.delay) orc hok
+          rw [filter_keep_unfiltered _ hoc hon] at this
+          exact this
+        have hlen : ((modelOut ρ budget c r orc).trace.map (SimEvent.shift (obsT0 c))).length =
+            (modelOut ρ budget c r orc).stream.length := by
+          rw [List.length_map, htr, List.length_map]
+        have hcnt : ∀ cl, normalSentCount ((modelOut ρ budget c r orc).trace.map (SimEvent.shift (obsT0 c))) cl =
+            (modelOut ρ budget c r orc).stream.countP (sentNormal cl) := by
+          intro cl
+          rw [normalSentCount_shift, htr, normalSentCount_map_ev]
+        have hcons := simAdvanced_conserve_final ρ budget c.mc c.ms (normalLines c.trace) c.delay (r.effArgs c.delay) orc
+        rw [← parseTraceRaw_eq] at hcons
+        have hle : ∀ cl, (modelOut ρ budget c r orc).stream.countP (sentNormal cl) ≤ share (normalLines c.trace) cl := by
+          intro cl; rw [share_eq_shareOf]; exact hcons.1 cl
+        unfold conservation
+        rw [hlen]
+        simp only [hcnt]
+        cases hcomp : (((r.effArgs c.delay).maxTraceLength == 0 ||
+            decide ((modelOut ρ budget c r orc).stream.length < (r.effArgs c.delay).maxTraceLength)) &&
+            ((r.effArgs c.delay).maxSimIterations == 0 ||
+              decide ((modelOut ρ budget c r orc).stream.length < (r.effArgs c.delay).maxSimIterations))) with
+        | false =>
+          simp only [Bool.false_eq_true, if_false, List.all_cons, List.all_nil, Bool.and_true, Bool.and_eq_true,
+            decide_eq_true_eq]
+          exact ⟨hle true, hle false⟩
+        | true =>
+          simp only [Bool.and_eq_true, Bool.or_eq_true, beq_iff_eq, decide_eq_true_eq] at hcomp
+          have heq : ∀ cl, (modelOut ρ budget c r orc).stream.countP (sentNormal cl) = share (normalLines c.trace) cl := by
+            cases hs : (modelOut ρ budget c r orc).stop with
+            | fault f => exact absurd hs (hok f)
+            | loopFuel => rw [hs] at hp; simp [Stop.isPanic] at hp
+            | maxTrace =>
+              have := simAdvanced_maxTrace ρ budget c.mc c.ms _ _ orc hs
+              change 0 < _ ∧ _ ≤ (modelOut ρ budget c r orc).trace.length at this
+              rw [htr, List.length_map] at this
+              exfalso; rcases hcomp.1 with h | h <;> omega
+            | maxIter =>
+              have := simAdvanced_maxIter ρ budget c.mc c.ms _ _ orc hs
+              change 0 < _ ∧ _ ≤ (modelOut ρ budget c r orc).stream.length at this
+              exfalso; rcases hcomp.2 with h | h <;> omega
+            | noNormal =>
+              intro cl
+              rw [share_eq_shareOf]
+              exact (C15_conservation_raw ρ budget c.mc c.ms c.trace c.delay (r.effArgs c.delay) orc).2 hs cl
+            | queueEmpty =>
+              intro cl
+              obtain ⟨stf, hf, _⟩ := simAdvanced_queueEmpty_final ρ budget c.mc c.ms _ _ orc hs
+              rw [share_eq_shareOf]
+              exact hcons.2 stf hf (hdr hs stf hf) cl
+          simp only [if_true, List.all_cons, List.all_nil, Bool.and_true, Bool.and_eq_true, beq_iff_eq]
+          exact ⟨heq true, heq false⟩
+
+/-- **The guard is needed.**  Two client packets, the second exactly `Duration::MAX`
+    (1.8·10^28 ns; not expressible in a trace file, whose times are u64 nanoseconds) after the
+    first, no machines, delay 0, through `sim` without caps: `pick_next` reads the offset
+    `Duration::MAX` as "nothing to do" (`C14_strict_bound_needed`), the model run ends with an
+    empty-queue stop after the four events of the first packet, and the monitor — which takes a
+    run that no cap cut short as complete — reports "normal packets not conserved (c=1/2)" on the
+    model's own observation. -/
+theorem C15_monitor_rejects_unreachable_packet :
+    (modelOut exOracle 8 farCase (demoSim 0 false) ()).stop = .queueEmpty ∧
+    (C15.monitor farCase (modelObs exOracle 8 farCase (demoSim 0 false) ())).isSome = true := by
+  refine ⟨by decide +kernel, ?_⟩
+  rw [modelObs_of_stream _ _ _ _ _ (by decide +kernel)]
+  decide +kernel
+
+/-- non-vacuity of `C15_monitor_accepts_model_partial`: the padding machine on the client side,
+    a raw trace with a padding line, all events recorded, continuing after the last normal
+    packet: the run ends with an empty queue after 20 iterations (two paddings sent and
+    delivered), the guard holds, and the monitor evaluates to `none` -/
+example :
+    (modelOut exOracle 100 demoCase (demoRun "u" 0 40 true false false) ()).stop = .queueEmpty ∧
+    (modelOut exOracle 100 demoCase (demoRun "u" 0 40 true false false) ()).stream.length = 20 ∧
+    ((modelOut exOracle 100 demoCase (demoRun "u" 0 40 true false false) ()).stream.filter
+      (fun r => match r.ev.event with | .paddingSent _ => true | _ => false)).length = 2 ∧
+    (match (modelOut exOracle 100 demoCase (demoRun "u" 0 40 true false false) ()).final with
+      | some stf => stf.sq.isEmpty
+      | none => false) = true := by decide +kernel
+
+example : C15.monitor demoCase (modelObs exOracle 100 demoCase (demoRun "u" 0 40 true false false) ()) = none := by
+  rw [modelObs_of_stream _ _ _ _ _ (by decide +kernel)]
+  decide +kernel
 
 end Mb.C15
